@@ -537,6 +537,24 @@ impl G<'_> {
                 }
             }
         }
+        // C02 (no withheld stream-count update): a slot that an APPLICATION call gives back to the peer (stop, read to
+        // the end, received_reset; a dropped handle is stop) is queued for announcement by that very call, not at the
+        // end of the next incoming packet: a peer parked on the stream limit sends nothing, so that packet may never
+        // come. Demanded only for a raise the endpoint announces at all (documented batching: the unannounced part
+        // reaches an eighth of the concurrency limit — the rule of C06-max-streams-raise-not-announced), judged
+        // against what the peer was told (MAX_STREAMS frames seen leaving, transport parameters).
+        if matches!(w[0], "open" | "accept" | "write" | "finish" | "reset" | "stopped" | "prio" | "read" | "stop" | "rreset" | "poll") {
+            let msi: Vec<&str> = v.pend.get("msi").map(|s| s.split(',').collect()).unwrap_or_default();
+            for d in 0..2 {
+                if mr[d] > pmr[d] {
+                    let diff = mr[d].saturating_sub(self.rfc.adv_streams[d].max(v.two("smr")[d]));
+                    let significant = diff > 0 && diff >= v.two("mcr")[d] / 8;
+                    if significant && msi.get(d) != Some(&"1") {
+                        self.fail("C02-max-streams-not-queued", format!("{line}: the call freed a {} stream of the peer (max_remote {pmr:?}->{mr:?}, announced {:?}, concurrency {:?}) and no MAX_STREAMS is queued (msi={:?}): the peer learns of the slot only after the next packet it sends", ["bidirectional", "unidirectional"][d], v.two("smr"), v.two("mcr"), msi));
+                    }
+                }
+            }
+        }
     }
 
     fn pick_send_id(&mut self) -> u64 {
@@ -1469,6 +1487,18 @@ impl G<'_> {
                     self.fail("C06-max-streams-raise-not-announced", format!("maxconc bi 8 -> 9 then qmsi -> {} (max_remote {:?} announced {:?})", v.result, prev.two("mr"), prev.two("smr")));
                 }
             }
+            self.op("ctrl");
+        }
+        // stop-known-final: the peer's only unidirectional stream was reset (RESET_STREAM arrived, nothing read); the
+        // application stops it: the freed slot must be queued for MAX_STREAMS by stop itself (the invariant
+        // C02-max-streams-not-queued judges every call); the same with a FIN instead of the reset
+        if self.start(1, 2, 1, 1000, 1000, 1000) {
+            self.apply_params([100, 100, 100, 2, 2, 1000]);
+            self.op("rst 2 7 0");
+            self.op("stop 2 7");
+            self.op("ctrl");
+            self.op("stream 6 0 5 1");
+            self.op("stop 6 9");
             self.op("ctrl");
         }
         // dup-reset: window shrunk (debt), RESET_STREAM, then the same RESET_STREAM again
